@@ -691,7 +691,22 @@ func ruleSIB6(w *World) []Ob {
 		// the stage method of the pipeline type that starts this worker
 		stage := ""
 		for _, g := range mi.workers[wk] {
-			stage = outermost(g.Parent()).Name()
+			f := outermost(g.Parent())
+			for i := 0; i < 4; i++ {
+				stage = f.Name()
+				if p.Func("(*gtree."+simple+")."+stage) != nil {
+					break
+				}
+				up := goStartOf(p, f)
+				if up == nil {
+					if site := soleCallSite(p, f); site != nil {
+						f = outermost(site.Parent())
+						continue
+					}
+					break
+				}
+				f = outermost(up.Parent())
+			}
 		}
 		sm := p.Func("(*gtree." + simple + ")." + stage)
 		construct := "per-root methods of " + rt + "." + stage + " vs " + simple + "." + stage
